@@ -135,6 +135,8 @@ def run(ctx, rep):
                     truth[vn_] = r.v if isinstance(r, Const) and r.kind == "bool" else None
                 skipped = sorted(k for k, v in truth.items() if v is not False)
                 ok = skipped == [default]
+                # keyed by what is lost, not by the predicate's path (renaming / moving the predicate keeps the finding the same)
+                key = "C19|X2|ast::%s|skipped=%s|restored-as=%s" % (fname, ",".join(skipped), default)
                 rep.check(ok, "X2", key, fw,
                           "ast::%s is omitted from the output when %s holds, i.e. for the value(s) %s, and reads back as Default::default() = %s: every omitted value other than the default is lost" % (fname, pred, skipped, default),
                           witness={"field": "ast::" + fname, "values_skipped": skipped, "restored_as": default},
